@@ -11,6 +11,7 @@ import TT.Driver.C13
 import TT.Driver.C15
 import TT.Driver.C18
 import TT.Driver.C19
+import TT.Driver.C20
 /-
 Line-protocol driver: one query per input line, one answer per output line.
 `<suite> <op> <args...>`; unknown queries answer `bad-op` (never a default value).
@@ -32,6 +33,7 @@ def answer (line : String) : String :=
   | "c15" :: rest => c15 rest
   | "c18" :: rest => c18 rest
   | "c19" :: rest => c19 rest
+  | "c20" :: rest => c20 rest
   | _ => "bad-op"
 
 partial def loop (h : IO.FS.Stream) (out : IO.FS.Stream) : IO Unit := do
